@@ -179,6 +179,30 @@ PROPS = {
                     "referenced in case/whitespace variants, core and GFM.",
         assumptions=["the block driver unwinds closed blocks completely (searched, not proved)"],
     ),
+    "C04": dict(
+        level="proof",
+        module="GM.Props.C04",
+        claim="Kernel-checked theorems, for every byte string a link/image destination or autolink URL can hold, that the value the renderer model "
+              "writes into href/src in safe mode is not read as javascript:/vbscript:/file:/non-image data: by an independently written browser-like "
+              "normaliser (character references decoded with the regenerated HTML5 table, C0/space trimmed, tab/CR/LF removed, scheme lower-cased); "
+              "the list of href/src emitters and the scheme constants are regenerated from /repo and tied by decide. A proof is the right level because "
+              "the property quantifies over every spelling of a URL.",
+        note="Trusted: Lean kernel (+ propext, Classical.choice, Quot.sound), the gmgen translator (urlAttrSites = string literals containing href=/src= in "
+             "renderer/html and extension), the render/util correspondence harness, and GM.Spec.Url as the reading of 'the way a browser does'. "
+             "The parser is not modelled: the theorems hold for whatever bytes the parser stores in the node, and the real parser+renderer output is "
+             "searched with the same Lean-defined predicate (tok urls) and an independent Go one (html.UnescapeString based).",
+        technique="Lean 4 theorems over the hand-written renderer/util model + regenerated facts; differential correspondence against the Go "
+                  "implementation; enumerated scheme-spelling search on the real parser+renderer",
+        components=["urlspell", "render", "util"],
+        explanation="safe_href / safe_autolink / footnote_href_harmless: for all byte strings, the href/src value written by the three URL emitters of "
+                    "GM.Model.Render in safe mode (and any '#'-prefixed footnote href) is harmless under Spec.hrefDangerous; emitters_complete and "
+                    "schemes_tied break when the Go code gains an href/src literal or changes a scheme constant. Component urlspell runs the real "
+                    "renderer on API-built Link/Image/AutoLink nodes for an exhaustively enumerated alphabet of URL fragments (compared with the exact "
+                    "expressions of the theorems) and the real parser+renderer on every letter case / escape / entity / percent / control-character "
+                    "split of the four schemes in every URL-bearing construct; render and util tie the models used by the theorems.",
+        assumptions=["GM.Spec.Url.hrefDangerous is an adequate reading of 'the way a browser does' (WHATWG URL scheme state; named references need ';')",
+                     "attribute values reach the output only through the modelled emitters (emitters_complete covers string literals containing href=/src=)"],
+    ),
 }
 
 # Properties not claimed yet, with the reason shown in MANIFEST.not_applicable.
